@@ -350,7 +350,8 @@ pub fn gen_plan(rng: &mut Rng, k: &HistKnobs) -> HistPlan {
     let mut preds = vec![];
     for _ in 0..n_preds {
         let model = rng.below(models.len());
-        let predict_tags = rng.chance(2, 3);
+        // (thread tier: half of the predictors are non-tagging, i.e. use the cached type scorer)
+        let predict_tags = if k.min_clients >= 2 { rng.chance(1, 2) } else { rng.chance(2, 3) };
         let store_scores = predict_tags && rng.chance(1, 2);
         preds.push(PredSpec { model, predict_tags, store_scores });
     }
@@ -458,10 +459,15 @@ pub fn gen_plan(rng: &mut Rng, k: &HistKnobs) -> HistPlan {
         // thread tier: same program shape on every client (different texts), so that threads
         // running in near lock-step contend for whatever the predictor might share
         let shape = clients[0].clone();
+        // in half of these plans the clients even work on identical texts: in lock-step they then
+        // touch the same (possibly not yet initialised) parts of a shared predictor at the same
+        // moment, and every client must still get the serial result
+        let identical = rng.chance(1, 2);
         for c in clients.iter_mut().skip(1) {
             *c = shape
                 .iter()
                 .map(|op| match op {
+                    Op::UpdateRaw { .. } if identical => op.clone(),
                     Op::UpdateRaw { owned, .. } => {
                         let n = rng.range(1, k.max_text);
                         Op::UpdateRaw { s: thread_text(rng, n), owned: *owned }
